@@ -896,6 +896,35 @@ def evidence(rep: common.LeanReport, stats: Dict[str, Any], tier: str, maxlen: i
     }
 
 
+def fam_leaves(rng: random.Random) -> List[Tuple[Grammar, List[int], Dict]]:
+    """Every leaf rule X of the library under the repetitions whose certification rests on X's own trait ("consumes on success" /
+    "may succeed without consuming"): star< X >, plus< X >, until< eof, X >, list< X, '!' >, star< seq< opt< 'a' >, X > >.  A leaf whose
+    match() contradicts its analyze_traits entry makes a certified grammar loop."""
+    out = []
+    zoo = [z for z in corpus.atom_zoo() if z[0] not in ('bol',)]
+    for gi in range(0, len(zoo), 4):
+        g = Grammar(f"lv{gi // 4}")
+        roots = []
+        names = []
+        for name, x in zoo[gi:gi + 4]:
+            names.append(name)
+            for t in (P('star', x), P('plus', x), P('until', P('eof'), x), P('list', x, P('one', C(33))), P('star', P('seq', P('opt', P('one', C(97))), x))):
+                roots.append(g.rule(t).id)
+        g.resolve()
+        out.append((g, roots, {'family': 'leaves', 'kind': 'leaves', 'atoms': names}))
+    return out
+
+
+LEAF_INPUTS = None
+
+
+def leaf_inputs() -> List[bytes]:
+    global LEAF_INPUTS
+    if LEAF_INPUTS is None:
+        LEAF_INPUTS = corpus.all_strings(corpus.ZOO_ALPHA, 2) + [b'255', b'256', b'26', b'99', b'111', b'1a1', b'12!5', b'\xc3\xa9\xc3\xa9', b'a1 ', b'...', b'a1a1']
+    return LEAF_INPUTS
+
+
 def families(rng: random.Random, tier: str):
     if tier == 'quick':
         return [('corpus', fam_corpus(rng, 14, 10), 3), ('nl', fam_nullable_loops(rng, 80), 3), ('lr', fam_left_recursion(rng, 230), 3)]
@@ -916,6 +945,11 @@ def run(tier: str) -> int:
         for name, groups, ml in families(rng, tier):
             maxlen = ml
             evaluate(v, groups, ml, stats, name)
+            print(f"[C11] {name}: grammars {stats['grammars']} roots {stats['roots']} zero {stats['zero']} nonzero {stats['nonzero']} "
+                  f"tables equal {stats['tables_equal']} (isomorphic {stats['tables_isomorphic']}) runs {stats['run_cases']} "
+                  f"overruns {stats['overruns']} oracle hits {stats['oracle_hits']} mismatches {stats['mismatch']} ({time.time() - t0:.1f}s)")
+        for name, groups, ml in [('leaves', fam_leaves(rng), 3)]:
+            evaluate(v, groups, ml, stats, name, inputs=leaf_inputs(), flagged_inputs=leaf_inputs()[:40])
             print(f"[C11] {name}: grammars {stats['grammars']} roots {stats['roots']} zero {stats['zero']} nonzero {stats['nonzero']} "
                   f"tables equal {stats['tables_equal']} (isomorphic {stats['tables_isomorphic']}) runs {stats['run_cases']} "
                   f"overruns {stats['overruns']} oracle hits {stats['oracle_hits']} mismatches {stats['mismatch']} ({time.time() - t0:.1f}s)")
